@@ -5,8 +5,13 @@
 package vhdb
 
 import (
+	"context"
+	"database/sql"
+	"database/sql/driver"
 	"encoding/json"
+	"errors"
 	"fmt"
+	"sync"
 	"os"
 	"path/filepath"
 	"sort"
@@ -16,7 +21,7 @@ import (
 	"github.com/bitcoin-sv/block-headers-service/internal/zzverif/vh"
 	"github.com/bitcoin-sv/block-headers-service/repository/dto"
 	"github.com/jmoiron/sqlx"
-	_ "github.com/mattn/go-sqlite3"
+	sqlite3 "github.com/mattn/go-sqlite3"
 )
 
 func repoDir() string {
@@ -34,12 +39,8 @@ func NewDB() *sqlx.DB {
 	}
 	name := f.Name()
 	f.Close()
-	db, err := sqlx.Open("sqlite3", "file:"+name+"?_foreign_keys=true")
-	if err != nil {
-		panic(vh.Diverged{Why: err.Error()})
-	}
-	db.SetMaxOpenConns(1)
-	vh.Cleanup(func() { db.Close(); os.Remove(name) })
+	db := open(name)
+	vh.Cleanup(func() { os.Remove(name) })
 	files, _ := filepath.Glob(filepath.Join(repoDir(), "database/migrations", "*.up.sql"))
 	sort.Slice(files, func(i, j int) bool {
 		a, _ := strconv.Atoi(strings.SplitN(filepath.Base(files[i]), "_", 2)[0])
@@ -111,8 +112,129 @@ func WebhookRows(db *sqlx.DB) []dto.DbWebhook {
 	return out
 }
 
-// WriteCount returns how many write transactions were committed so far (symbolic mode only; natively 0).
-func WriteCount(db *sqlx.DB) int { return 0 }
+// ---- fault injection: a driver wrapper that counts committed write transactions per file
+
+type faultState struct {
+	commits int
+	failAt  int
+	killAt  int
+}
+
+var (
+	faults   = map[string]*faultState{}
+	fileOf   = map[*sqlx.DB]string{}
+	regOnce  sync.Once
+	errFault = errors.New("injected storage failure at commit")
+)
+
+// Killed is the panic that stands for the process being killed right after a commit.
+type Killed struct{}
+
+type wdriver struct{ sqlite3.SQLiteDriver }
+
+func (d *wdriver) Open(dsn string) (driver.Conn, error) {
+	c, err := d.SQLiteDriver.Open(dsn)
+	if err != nil {
+		return nil, err
+	}
+	name := strings.TrimPrefix(strings.SplitN(dsn, "?", 2)[0], "file:")
+	return &wconn{SQLiteConn: c.(*sqlite3.SQLiteConn), fs: faults[name]}, nil
+}
+
+type wconn struct {
+	*sqlite3.SQLiteConn
+	fs *faultState
+}
+
+func (c *wconn) Begin() (driver.Tx, error) {
+	tx, err := c.SQLiteConn.Begin()
+	if err != nil {
+		return nil, err
+	}
+	return &wtx{Tx: tx, fs: c.fs}, nil
+}
+
+func (c *wconn) BeginTx(ctx context.Context, opts driver.TxOptions) (driver.Tx, error) {
+	tx, err := c.SQLiteConn.BeginTx(ctx, opts)
+	if err != nil {
+		return nil, err
+	}
+	return &wtx{Tx: tx, fs: c.fs}, nil
+}
+
+type wtx struct {
+	driver.Tx
+	fs *faultState
+}
+
+func (t *wtx) Commit() error {
+	if t.fs == nil {
+		return t.Tx.Commit()
+	}
+	t.fs.commits++
+	if t.fs.failAt > 0 && t.fs.commits == t.fs.failAt {
+		_ = t.Tx.Rollback()
+		return errFault
+	}
+	err := t.Tx.Commit()
+	if t.fs.killAt > 0 && t.fs.commits == t.fs.killAt {
+		panic(Killed{})
+	}
+	return err
+}
+
+func open(name string) *sqlx.DB {
+	regOnce.Do(func() { sql.Register("sqlite3vh", &wdriver{}) })
+	if faults[name] == nil {
+		faults[name] = &faultState{}
+	}
+	raw, err := sql.Open("sqlite3vh", "file:"+name+"?_foreign_keys=true")
+	if err != nil {
+		panic(vh.Diverged{Why: err.Error()})
+	}
+	db := sqlx.NewDb(raw, "sqlite3")
+	fileOf[db] = name
+	vh.Cleanup(func() { db.Close(); delete(fileOf, db) })
+	return db
+}
+
+// FailCommit makes the n-th write-transaction commit from now on this database fail (nothing is written).
+func FailCommit(db *sqlx.DB, n int) {
+	fs := faults[fileOf[db]]
+	fs.failAt = fs.commits + n
+}
+
+// KillAfterCommit stops the process right after the n-th commit from now (see RunUntilKill).
+func KillAfterCommit(db *sqlx.DB, n int) {
+	fs := faults[fileOf[db]]
+	fs.killAt = fs.commits + n
+}
+
+// RunUntilKill runs f; it reports whether f was cut short by the kill armed with KillAfterCommit.
+func RunUntilKill(f func()) (killed bool) {
+	defer func() {
+		if r := recover(); r != nil {
+			if _, ok := r.(Killed); ok {
+				killed = true
+				return
+			}
+			panic(r)
+		}
+	}()
+	f()
+	return false
+}
+
+// Reopen is the restart: a new connection to the same database file, all faults disarmed.
+func Reopen(db *sqlx.DB) *sqlx.DB {
+	name := fileOf[db]
+	fs := faults[name]
+	fs.failAt, fs.killAt = 0, 0
+	return open(name)
+}
+
+// WriteCount returns how many write transactions were attempted to commit so far.
+func WriteCount(db *sqlx.DB) int { return faults[fileOf[db]].commits }
 
 type wsParam struct {
 	Name string `json:"name"` // "" for positional
